@@ -105,12 +105,16 @@ fn run_writer3(keep: u64, write: u64, n: usize, msg: usize, old: usize, stale: b
         files = std::fs::read_dir(&dir).unwrap().map(|e| e.unwrap()).filter(|e| e.file_name().to_string_lossy().starts_with("log"))
             .map(|e| (e.file_name().to_string_lossy().to_string(), std::fs::read(e.path()).unwrap_or_default())).collect();
         if files.iter().any(|(_, c)| String::from_utf8_lossy(c).contains(&want_last)) { break; }
-        if t0.elapsed() > Duration::from_secs(5) {
-            return fail(format!("expected=last event written actual=not on disk after 5 s (writer thread dead?)"));
+        if t0.elapsed() > Duration::from_secs(30) {
+            return fail(format!("expected=last event written actual=not on disk after 30 s (writer thread dead?)"));
         }
         std::thread::sleep(Duration::from_millis(5));
     }
-    std::thread::sleep(Duration::from_millis(30));
+    // the writer is idle now (the last event is on disk): take the snapshot that is judged only after that, so that it
+    // does not mix states from before and after the writer's deletions
+    std::thread::sleep(Duration::from_millis(50));
+    files = std::fs::read_dir(&dir).unwrap().map(|e| e.unwrap()).filter(|e| e.file_name().to_string_lossy().starts_with("log"))
+        .map(|e| (e.file_name().to_string_lossy().to_string(), std::fs::read(e.path()).unwrap_or_default())).collect();
     drop(sender);
     let total: u64 = files.iter().map(|(_, c)| c.len() as u64).sum();
     if total > keep.max(0) + max_line {
